@@ -192,6 +192,20 @@ def run(rep, repo, tier):
     mod = witness('w_sline.c', repo)
     rep.units.append('witness/w_sline.c -> igris/datastruct/sline.h')
     run_contracts(rep, 'R-SLINE', mod, [SLINE], SLINE_FNS)
+
+    def ext_strncmp(interp, st, i, args):
+        # reads at most n bytes of the (unterminated) line buffer; the other operand is a C string
+        n = st.force_u(args[2]) if hasattr(args[2], 'w') else None
+        if n is not None:
+            interp.check_access(st, args[0], n, i, 'strncmp')
+        return [(st, st.fresh_int(32, True, 'strncmp'))]
+    # sline_equal(line, text): a line whose length differs from the text's is not equal to it (it decides whether an entered
+    # line is pushed to the history: a line that is a proper prefix of the previous one is a different line)
+    run_contracts(rep, 'R-SLINE', mod, [SLINE], {
+        'sline_equal': FnSpec(setup=cstr_params(1), post=[
+            dict(name='shorter-line-is-not-equal', when=['len + 1 <= len_arg1'], then=['ret == 0']),
+            dict(name='longer-line-is-not-equal', when=['len >= len_arg1 + 1'], then=['ret == 0']),
+            dict(name='answer-is-0-or-1', then=['ret >= 0', 'ret <= 1'])])}, externals={'strncmp': ext_strncmp})
     run_readline(rep, repo)
     run_twin(rep, repo)
     rep.floor('R-SLINE:bounds', 25)
